@@ -52,7 +52,7 @@ def make_device(kind: str, rng=None, *, length_units="um", xi=0.5, gamma=10.0, u
         holes = [P("hole", points=circle(0.7 * s, points=21, center=(0.2 * s, 0)))]
         probe_pts = [(-1.4 * s, 0), (1.5 * s, 0.2 * s)]
     elif kind == "ellipse":
-        film = P("film", points=ellipse(2.5 * s, 1.5 * s, points=41, angle=20))
+        film = P("film", points=ellipse(2.5 * s, 1.5 * s, points=31, angle=20))
         probe_pts = [(-1.0 * s, 0), (1.0 * s, 0.2 * s), (0.0, 0.5 * s)]
     elif kind == "union":
         film = (P("film", points=box(4 * s, 2 * s, points=31)) + P(points=circle(1.4 * s, points=25, center=(1.5 * s, 0)))).resample(51)
@@ -62,8 +62,17 @@ def make_device(kind: str, rng=None, *, length_units="um", xi=0.5, gamma=10.0, u
         raise ValueError(kind)
     dev = tdgl.Device(kind, layer=L, film=film, holes=holes, terminals=terms, probe_points=(probe_pts if probes else None), length_units=length_units)
     if mesh:
-        mel = max_edge_length if max_edge_length is not None else xi * s * 1.6
-        dev.make_mesh(max_edge_length=mel, smooth=smooth, min_points=min_points)
+        mel = max_edge_length if max_edge_length is not None else xi * 1.6
+        mel = mel * s
+        last = None
+        # the library refuses meshes with a malformed boundary Voronoi cell: try nearby densities
+        for fac in (1.0, 0.9, 1.1, 0.8, 0.7, 1.25, 0.6):
+            try:
+                dev.make_mesh(max_edge_length=mel * fac, smooth=smooth, min_points=min_points)
+                return dev
+            except ValueError as e:
+                last = e
+        raise V.Infra(f"could not mesh zoo device {kind}: {last}")
     return dev
 
 
